@@ -111,6 +111,13 @@ def extract(tier):
     if os.path.isdir(corpus_dir()):
         extra.append(corpus_dir())
     h = tree_hash(REPO, extra)
+    seed = 0
+    if tier == "thorough":
+        try:
+            seed = int(os.environ.get("VERIF_SEED", "0"))
+        except ValueError:
+            seed = 0
+        h = "%s-s%d" % (h, seed)
     os.makedirs(CACHE, exist_ok=True)
     dest = os.path.join(CACHE, "facts-%s-%s" % (h, tier))
     lock_path = os.path.join(CACHE, "lock-%s-%s" % (h, tier))
@@ -129,25 +136,40 @@ def extract(tier):
             out = os.path.join(scratch, "facts")
             os.makedirs(out)
             target = os.path.join(scratch, "target")
-            corpus_error = None
+            errors = {}
+            optional = []
             if os.path.isdir(corpus_dir()):
                 _add_corpus(srepo)
-            try:
-                log = _run_driver(srepo, out, target, ["--workspace", "--all-targets"])
-            except BuildFailed as e:
-                # Does the tree build without the corpus?  Then the corpus (code generated by the tree's own
-                # generator from accepted grammars) is what fails to compile: a C03 matter, not "no verdict".
-                if not os.path.isdir(os.path.join(srepo, "verif_corpus")):
-                    raise
-                corpus_error = str(e)
-                shutil.rmtree(os.path.join(srepo, "verif_corpus"))
-                ct = os.path.join(srepo, "Cargo.toml")
-                s_ = open(ct).read().replace('"verif_corpus", ', "", 1)
-                open(ct, "w").write(s_)
-                for f in glob.glob(os.path.join(out, "*.json")):
-                    os.unlink(f)
-                shutil.rmtree(target, ignore_errors=True)
-                log = _run_driver(srepo, out, target, ["--workspace", "--all-targets"])
+                optional.append("verif_corpus")
+                if tier == "thorough":
+                    _add_random_corpus(srepo, seed)
+                    optional.append("verif_corpus_rand")
+            # Optional members hold code generated by the tree's own generator from grammars it accepts.  If one of them
+            # does not compile while the repository itself builds, that is a C03 matter (recorded), not "no verdict".
+            while True:
+                try:
+                    log = _run_driver(srepo, out, target, ["--workspace", "--all-targets"])
+                    break
+                except BuildFailed as e:
+                    import re as _re
+                    failed = set(_re.findall(r"could not compile `([\w-]+)`", str(e)))
+                    culprits = [m for m in optional if m in failed]
+                    if not culprits:
+                        raise
+                    for m in culprits:
+                        errors[m] = str(e)
+                        optional.remove(m)
+                        gd = os.path.join(srepo, m, "grammars")
+                        if os.path.isdir(gd):
+                            shutil.copytree(gd, os.path.join(scratch, "failed_" + m))
+                        shutil.rmtree(os.path.join(srepo, m))
+                        ct = os.path.join(srepo, "Cargo.toml")
+                        s_ = open(ct).read().replace('"%s", ' % m, "", 1)
+                        open(ct, "w").write(s_)
+                    for f in glob.glob(os.path.join(out, "*.json")):
+                        os.unlink(f)
+                    shutil.rmtree(target, ignore_errors=True)
+            corpus_error = errors.get("verif_corpus")
             if tier == "thorough":
                 # runtime without default features (colored_shim variant)
                 out2 = os.path.join(scratch, "facts_nodefault")
@@ -182,6 +204,17 @@ def extract(tier):
             if corpus_error:
                 with open(os.path.join(tmpdest, "CORPUS_ERROR"), "w") as f:
                     f.write(corpus_error)
+            rg = os.path.join(srepo, "verif_corpus_rand")
+            if os.path.isdir(rg):
+                shutil.copytree(os.path.join(rg, "grammars"), os.path.join(tmpdest, "rand_grammars"))
+                if os.path.isdir(os.path.join(rg, "src", "gen")):
+                    shutil.copytree(os.path.join(rg, "src", "gen"), os.path.join(tmpdest, "rand_gen"))
+            if "verif_corpus_rand" in errors:
+                with open(os.path.join(tmpdest, "RAND_ERROR"), "w") as f:
+                    f.write(errors["verif_corpus_rand"])
+                fg = os.path.join(scratch, "failed_verif_corpus_rand")
+                if os.path.isdir(fg):
+                    shutil.copytree(fg, os.path.join(tmpdest, "rand_grammars"))
             with open(os.path.join(tmpdest, "DONE"), "w") as f:
                 f.write("%.1f\n" % (time.time() - t0))
             shutil.rmtree(dest, ignore_errors=True)
@@ -209,6 +242,34 @@ def _add_corpus(srepo):
     s = open(ct).read()
     s = s.replace('members = [', 'members = ["verif_corpus", ', 1)
     open(ct, "w").write(s)
+
+
+def _add_random_corpus(srepo, seed, modules=4, rules=80):
+    """Thorough tier: a second corpus crate whose grammars are generated from VERIF_SEED (tools/gen_random_grammar.py)."""
+    src = os.path.join(corpus_dir(), "crate")
+    dst = os.path.join(srepo, "verif_corpus_rand")
+    shutil.copytree(src, dst)
+    ct = os.path.join(dst, "Cargo.toml")
+    txt = open(ct).read().replace('name = "verif_corpus"', 'name = "verif_corpus_rand"')
+    open(ct, "w").write(txt)
+    gdst = os.path.join(dst, "grammars")
+    os.makedirs(gdst, exist_ok=True)
+    sys.path.insert(0, os.path.join(VERIF, "tools"))
+    import gen_random_grammar
+    lines = []
+    for k in range(modules):
+        sd = seed * 1000 + k
+        text = gen_random_grammar.validated(sd, rules)
+        name = "rand_%d" % k
+        with open(os.path.join(gdst, name + ".ebnf"), "w") as f:
+            f.write(text)
+        lines.append("%s|%s.ebnf|Debug,Clone|\n" % (name, name))
+    with open(os.path.join(gdst, "corpus.txt"), "w") as f:
+        f.write("".join(lines))
+    wt = os.path.join(srepo, "Cargo.toml")
+    s = open(wt).read()
+    s = s.replace('members = [', 'members = ["verif_corpus_rand", ', 1)
+    open(wt, "w").write(s)
 
 
 def _prune(keep=4):
